@@ -201,6 +201,31 @@ def r2_rewind(ctx, rule='C12.R2', only=None, floor=6):
                     f'{f.qual}: `{src(c, 50)}` is protected by a catch-all handler that rewinds `{p}` and re-raises (so the retry starts from byte 0)',
                     f'{f.qual}: `{src(c, 50)}` can fail in mid-transfer and be retried without the stream being rewound: {why}',
                 )
+            # any other fallible step after the first consumption (publishing the temporary,
+            # closing the response ...) also triggers a retry and must rewind as well
+            if retried and cons:
+                first = min(c.lineno for c in cons)
+                for c2 in calls_in(f.node):
+                    if c2.lineno <= first or c2 in cons:
+                        continue
+                    if any(isinstance(a, ast.ExceptHandler) for a in ancestors(c2)):
+                        continue
+                    d2 = dotted(c2.func) or ''
+                    if d2.startswith(('logger.', 'logging.', 'int', 'str', 'len')) or d2 in ('int', 'str', 'len'):
+                        continue
+                    if isinstance(c2.func, ast.Attribute) and isinstance(c2.func.value, ast.Name) and c2.func.value.id == p:
+                        continue
+                    tries = [a for a in ancestors(c2) if isinstance(a, ast.Try) and any(is_within(c2, b) for b in a.body)]
+                    prot = any(is_catch_all(h, accept_exception=True) and _rewinds(h.body, p) and handler_reraises(h) for t in tries for h in t.handlers)
+                    n += 1
+                    ctx.check(
+                        prot,
+                        rule,
+                        f'{func_label(f)}|later-step-rewinds-too',
+                        loc(f, c2),
+                        f'{f.qual}: `{src(c2, 50)}` (after the stream was consumed) is covered by the rewinding catch-all handler',
+                        f'{f.qual}: `{src(c2, 50)}` can fail after the stream was consumed and is retried without `{p}.seek(0)`: the retry transfers from an exhausted stream and publishes a truncated/empty object',
+                    )
     ctx.floor(rule, 'stream consumption sites in the adapters', n, floor)
 
 
@@ -324,10 +349,21 @@ def r4_reauth(ctx):
     # giveup predicate tests only FORBIDDEN
     for short in ('b2', 's3c'):
         m = corpus.module(short)
-        g = m.functions.get('_check_403')
-        if g is not None:
+        gnames = set()
+        for v in m.assigns.values():
+            if isinstance(v, ast.Call):
+                gk = kwarg(v, 'giveup')
+                if gk is not None:
+                    gnames.add(dotted(gk) or src(gk))
+        ctx.floor('C12.R4', f'{short}: giveup predicate of the retry decorator', len(gnames))
+        for gn in gnames:
+            g = m.functions.get(gn)
+            if g is None:
+                ctx.fail('C12.R4', f'{m.rel}|giveup-only-forbidden', m.rel, f'{short}: the give-up predicate `{gn}` is not a module function that can be analysed')
+                continue
             codes = {a.attr for a in ast.walk(g.node) if isinstance(a, ast.Attribute) and isinstance(a.value, ast.Attribute) and a.value.attr == 'codes'}
-            ctx.check(codes == {'FORBIDDEN'}, 'C12.R4', f'{func_label(g)}|giveup-only-forbidden', loc(g, g.node), f'{short}: retries are given up only for 403', f'{short}: the give-up predicate tests {sorted(codes)}: transient statuses would not be retried')
+            cmp_ok = any(isinstance(c, ast.Compare) and isinstance(c.ops[0], ast.Eq) and isinstance(c.left, ast.Attribute) and c.left.attr == 'status_code' for c in ast.walk(g.node))
+            ctx.check(codes == {'FORBIDDEN'} and cmp_ok, 'C12.R4', f'{m.rel}|giveup-only-forbidden', loc(g, g.node), f'{short}: retries are given up only for status 403', f'{short}: the give-up predicate `{gn}` gives up on more than 403 ({sorted(codes) or src(g.node.body[-1], 80)}): throttling / time-out answers (429, 408) are no longer retried')
     # the re-auth wrapper retries through itself (so that repeated AuthRequired is handled again)
     ra = corpus.module('utils').functions.get('requires_auth')
     if ra is None:
@@ -364,7 +400,35 @@ def r4_reauth(ctx):
             )
 
 
+def r5_no_stale_credentials(ctx):
+    """Server-issued state cached on a B2 instance by a re-authenticated method is
+    reset by authenticate() (otherwise a stale token is re-sent after every re-auth)."""
+    corpus = ctx.corpus
+    b2 = corpus.cls('b2', 'B2')
+    auth = b2.methods.get('authenticate')
+    if auth is None:
+        raise AnalysisError('C12.R5: B2.authenticate missing')
+    reset = {a.attr for a in ast.walk(auth.node) if isinstance(a, ast.Attribute) and isinstance(a.ctx, (ast.Store, ast.Del)) and isinstance(a.value, ast.Name) and a.value.id == 'self'}
+    n = 0
+    for name, f in b2.methods.items():
+        if name in ('__init__', 'authenticate', 'close'):
+            continue
+        for a in ast.walk(f.node):
+            if isinstance(a, ast.Attribute) and isinstance(a.ctx, ast.Store) and isinstance(a.value, ast.Name) and a.value.id == 'self':
+                n += 1
+                ctx.check(
+                    a.attr in reset,
+                    'C12.R5',
+                    f'{func_label(f)}|cached-state-reset-on-reauth:{a.attr}',
+                    loc(f, a),
+                    f'B2.{name}: cached `self.{a.attr}` is (re)set by authenticate()',
+                    f'B2.{name} caches server-issued state in `self.{a.attr}` that authenticate() never resets: after the authorisation expires every re-authentication is followed by the same stale value and the call is retried without end',
+                )
+    ctx.count('b2_cached_attributes', n)
+
+
 def run(ctx):
+    r5_no_stale_credentials(ctx)
     r1_bounded_retry(ctx)
     r2_rewind(ctx)
     r3_wrappers(ctx)
